@@ -34,6 +34,15 @@ def attrEscChar (c : Char) : List Char :=
 
 def attrEscape (s : List Char) : List Char := s.flatMap attrEscChar
 
+/-- quick-xml `partial_escape`: `< > &` only -/
+def pescCharOld (c : Char) : List Char :=
+  if c = '<' then "&lt;".toList
+  else if c = '>' then "&gt;".toList
+  else if c = '&' then "&amp;".toList
+  else [c]
+
+def partialEscapeOld (s : List Char) : List Char := s.flatMap pescCharOld
+
 /-- `write_text_node_conversion`: quick-xml `partial_escape` (`< > &`), then `\r` ↦ `&#13;` -/
 def pescChar (c : Char) : List Char :=
   if c = '<' then "&lt;".toList
